@@ -29,7 +29,9 @@ def rescale_ops(rng):
     ops = []
     for _ in range(int(rng.integers(1, 4))):
         k = pick(rng, ["mul", "mul", "div", "set"])
-        c = pick(rng, [2.0, 0.5, 4.0, 0.25, 3.0]) if k != "set" else pick(rng, [0.125, 0.75, 1.0, 2.0])
+        # dyadic factors only (division by 3 would leave the dyadic grid; with W=None the code forms alpha with the
+        # float32 ones of the default Identity, so a scale that is not float32-representable costs float32 accuracy)
+        c = pick(rng, [2.0, 0.5, 4.0, 0.25, 3.0] if k == "mul" else [2.0, 0.5, 4.0, 0.25]) if k != "set" else pick(rng, [0.125, 0.75, 1.0, 2.0])
         ops.append([k, c])
     return ops
 
